@@ -37,10 +37,10 @@ def e2e_cases(tier):
     """(target relative to project root, cwd relative to project root, [spellings valid from that cwd])"""
     cases = []
     # target x at the project root, seen from the root and from d/
-    cases.append(("x", "", ["x", "./x", "d/../x", "{P}/x", ".//x", "ld/../x", "d/./../x"]))
+    cases.append(("x", "", ["x", "./x", "d/../x", "{P}/x", ".//x", "ld/../x", "d/./../x", "/{P}/x"]))   # "/{P}/x": absolute with a doubled leading slash
     cases.append(("x", "d", ["../x", "./../x", "{P}/x", "..//x", "../d/../x", "e/../../x"]))
     # target d/y (inside a directory that also has a symlinked name ld -> d)
-    cases.append(("d/y", "", ["d/y", "./d/y", "ld/y", "{P}/d/y", "{P}/ld/y", "d//y", "d/e/../y"]))
+    cases.append(("d/y", "", ["d/y", "./d/y", "ld/y", "{P}/d/y", "{P}/ld/y", "d//y", "d/e/../y", "/{P}/d/y"]))
     if tier != "quick":
         cases.append(("d/y", "d", ["y", "./y", "../d/y", "../ld/y", "{P}/d/y", "e/../y"]))
         cases.append(("d/y", "ld", ["y", "../d/y", "../ld/y"]))
